@@ -162,3 +162,148 @@ Print Assumptions C14_seed_reaches_every_component.
 Print Assumptions C14_seeded_Wfb_is_position_zero.
 Print Assumptions C14_different_seeds_different_streams.
 Print Assumptions C14_same_seed_bit_identical.
+
+(* ==== tie (T): the seed plumbing TRANSLATED from the current source ====================================================================
+   gen/Gen_seed.v is regenerated on every run by tools/vlib/py2coq_seed.py from reservoirpy/utils/random.py (set_seed, rand_generator,
+   noise), datasets/_seed.py (get_seed, set_seed) and, as an extracted table, from the seed arguments of Reservoir.__init__ /
+   reservoirs/base.py; base/SeedPrelude.v is the meaning of its vocabulary (the module globals and the heap of Generator objects are an
+   explicit `world`); proofs/Gen_seed_eq.v proves the generated functions equal to the functions of model/Prov.v the theorems above are
+   about.  world_of st a b = the Python world the model state st stands for (a, b: __SEED and numpy's legacy seed, not tracked by the
+   model: arbitrary); val_of_src injects SNone | SInt s | SGen u into Python values. *)
+From RV Require Import base.SeedPrelude gen.Gen_seed proofs.Gen_seed_eq.
+
+(* utils/random.set_seed(int) is Prov.do_set_seed: __global_rg is re-bound to a brand-new default_rng(s) *)
+Theorem C14_generated_set_seed (st : state) (a b : pyval) (s : nat) :
+  GenSeed.set_seed (world_of st a b) (VInt s) = Ok (world_of (do_set_seed st s) (VInt s) (VInt s)).
+Proof. exact (gen_set_seed_eq st a b s). Qed.
+(* ... anything whose type is not exactly int is refused before any global is written *)
+Theorem C14_generated_set_seed_rejects (w : world) (v : pyval) :
+  py_type_is_int v = false -> GenSeed.set_seed w v = Raise TypeError.
+Proof. exact (gen_set_seed_rejects w v). Qed.
+(* ... in any world: afterwards the global generator is a new object at position 0 of the stream rooted in s, all others untouched *)
+Theorem C14_generated_set_seed_fresh_global (w : world) (s : nat) :
+  exists w', GenSeed.set_seed w (VInt s) = Ok w' /\
+    w_global_rg w' = GGlob (S (w_binds w)) /\ w_heap w' (w_global_rg w') = (Seeded s, []) /\
+    (forall g, g <> GGlob (S (w_binds w)) -> w_heap w' g = w_heap w g).
+Proof. exact (gen_set_seed_fresh_global w s). Qed.
+
+(* utils/random.rand_generator followed by one draw is Prov.draw_src, for every state, every seed form, every request *)
+Theorem C14_generated_rand_generator_draw (st : state) (a b : pyval) (sd : src) (r : req) (post : nat) :
+  bind (GenSeed.rand_generator (world_of st a b) (val_of_src sd)) (fun g => draw_on (world_of st a b) g r post)
+  = Ok (world_of (fst (draw_src st sd r post)) a b, snd (draw_src st sd r post)).
+Proof. exact (gen_draw_src_eq st a b sd r post). Qed.
+(* utils/random.rand_generator whose result is kept by a node is Prov.construct *)
+Theorem C14_generated_rand_generator_construct (st : state) (a b : pyval) (i : nat) (c : rcfg) :
+  exists p,
+    bind (GenSeed.rand_generator (world_of st a b) (val_of_src (c_src c))) (fun g => keep_gen (world_of st a b) (GPriv i) g)
+    = Ok (world_of (construct st i c) a b, p)
+    /\ nodes (construct st i c) i = Some (mkNode c p None None []).
+Proof. exact (gen_construct_eq st a b i c). Qed.
+(* with an int seed the result is a brand-new stream rooted in the seed, in every world: never the global generator *)
+Theorem C14_generated_rand_generator_int (w : world) (s : nat) :
+  GenSeed.rand_generator w (VInt s) = Ok (GNew (Seeded s, [])).
+Proof. exact (gen_rand_generator_int w s). Qed.
+
+(* utils/random.noise is Prov.noise *)
+Theorem C14_generated_noise (st : state) (a b : pyval) (p : gid) (gain : nat) (r : req) :
+  GenSeed.noise (world_of st a b) p (q_dist r) (q_rows r, q_cols r) gain (q_args r)
+  = Ok (world_of (fst (Prov.noise st p gain r)) a b, mat_of_noise r (snd (Prov.noise st p gain r))).
+Proof. exact (gen_noise_eq st a b p gain r). Qed.
+(* gain 0 on the translated code: literal zeros, the whole world (every generator object, every global) as it was *)
+Theorem C14_generated_zero_gain_no_noise (w : world) (rng : gid) (dist kwargs : nat) (shape : nat * nat) :
+  GenSeed.noise w rng dist shape 0 kwargs = Ok (w, MZero (fst shape) (snd shape)).
+Proof. exact (gen_noise_zero_gain w rng dist kwargs shape). Qed.
+(* gain <> 0: exactly one request served, by the object that was passed *)
+Theorem C14_generated_noise_draws_once (w : world) (rng : gid) (dist kwargs gain : nat) (shape : nat * nat) :
+  gain <> 0 ->
+  exists w' d, GenSeed.noise w rng dist shape gain kwargs = Ok (w', MDraw d) /\
+    w_heap w' rng = (fst (w_heap w rng), snd (w_heap w rng) ++ [mkReq dist (fst shape) (snd shape) kwargs]) /\
+    d_root d = fst (w_heap w rng) /\ d_trace d = snd (w_heap w rng) /\ d_post d = gain.
+Proof. exact (gen_noise_draws_once w rng dist kwargs gain shape). Qed.
+
+(* datasets/_seed.py *)
+Theorem C14_generated_dataset_seed (st : state) (a b : pyval) (s : nat) :
+  GenSeed.ds_get_seed (world_of st a b) = Ok (val_of_src (SInt (ds_default st))) /\
+  GenSeed.ds_set_seed (world_of st a b) (VInt s) = Ok (world_of (fst (step st (ODsSetSeed s))) a b).
+Proof. exact (conj (gen_ds_get_seed_eq st a b) (gen_ds_set_seed_eq st a b s)). Qed.
+
+(* the seed table extracted from Reservoir.__init__ / initialize / initialize_feedback: W, Win, bias, Wfb receive `seed` as given,
+   the noise receives rng = rand_generator(seed) *)
+Theorem C14_generated_reservoir_seed_table :
+  GenSeed.reservoir_seed_table = [(CW, ESeed); (CWin, ESeed); (CBias, ESeed); (CWfb, ESeed); (CNoise, ERng)]
+  /\ GenSeed.reservoir_rng_arg = ESeed.
+Proof. exact gen_seed_table_eq. Qed.
+(* ... so each matrix draws, through the table and the translated rand_generator, exactly like Prov.draw_src on the node's seed *)
+Theorem C14_generated_table_matrix_draw (c : component) (st : state) (a b : pyval) (n : rnode) (r : req) (post : nat) :
+  c <> CNoise ->
+  table_draw c (world_of st a b) (val_of_src (c_src (n_cfg n))) (n_rng n) r post
+  = Ok (world_of (fst (draw_src st (c_src (n_cfg n)) r post)) a b, snd (draw_src st (c_src (n_cfg n)) r post)).
+Proof. exact (gen_table_matrix_draw c st a b n r post). Qed.
+(* ... Prov.do_initfb is the table's draw for Wfb (array produced and world afterwards) *)
+Theorem C14_generated_table_initfb (st : state) (a b : pyval) (i : nat) (n : rnode) (dfb : nat) :
+  let c := n_cfg n in
+  exists w' d,
+    table_draw CWfb (world_of st a b) (val_of_src (c_src c)) (n_rng n) (mkReq DBERN (c_units c) dfb (fst (c_Fb c))) (snd (c_Fb c)) = Ok (w', d)
+    /\ snd (do_initfb st i n dfb) = [mkEv (Some i) TAG_WFB (TMat (MDraw d))]
+    /\ w' = world_of (fst (do_initfb st i n dfb)) a b.
+Proof. exact (gen_table_initfb st a b i n dfb). Qed.
+(* ... Prov.do_init is the table's draws for W, Win and (when input_bias) bias, in this order *)
+Theorem C14_generated_table_init (st : state) (a b : pyval) (i : nat) (n : rnode) (din : nat) :
+  let c := n_cfg n in
+  let sd := val_of_src (c_src c) in
+  exists w1 dW w2 dWin,
+    table_draw CW (world_of st a b) sd (n_rng n) (mkReq DNORM (c_units c) (c_units c) (fst (c_W c))) (snd (c_W c)) = Ok (w1, dW)
+    /\ table_draw CWin w1 sd (n_rng n) (mkReq DBERN (c_units c) din (fst (c_Win c))) (snd (c_Win c)) = Ok (w2, dWin)
+    /\ (c_bias c = false ->
+          snd (do_init st i n din)
+          = [mkEv (Some i) TAG_W (TMat (MDraw dW)); mkEv (Some i) TAG_WIN (TMat (MDraw dWin)); mkEv (Some i) TAG_BIAS (TMat (MZero (c_units c) 1))]
+          /\ w2 = world_of (fst (do_init st i n din)) a b)
+    /\ (c_bias c = true -> exists w3 dB,
+          table_draw CBias w2 sd (n_rng n) (mkReq DBERN (c_units c) 1 (fst (c_B c))) (snd (c_B c)) = Ok (w3, dB)
+          /\ snd (do_init st i n din)
+             = [mkEv (Some i) TAG_W (TMat (MDraw dW)); mkEv (Some i) TAG_WIN (TMat (MDraw dWin)); mkEv (Some i) TAG_BIAS (TMat (MDraw dB))]
+          /\ w3 = world_of (fst (do_init st i n din)) a b).
+Proof. exact (gen_table_init st a b i n din). Qed.
+(* ... the noise generator of a node is the object kept at construction *)
+Theorem C14_generated_table_noise_generator (w : world) (seed : pyval) (rng : gid) :
+  receives GenSeed.rand_generator (table_get GenSeed.reservoir_seed_table CNoise) w seed rng = Ok (GRef rng).
+Proof. exact (gen_table_noise_generator w seed rng). Qed.
+(* ... with an int seed each matrix is the draw at position 0 of default_rng(s) in every world, whatever the node's generator served *)
+Theorem C14_generated_int_seed_position_zero (c : component) (w : world) (s : nat) (rng : gid) (r : req) (post : nat) :
+  c <> CNoise -> table_draw c w (VInt s) rng r post = Ok (w, mkDraw (Seeded s) [] r post).
+Proof. exact (gen_table_int_seed_position_zero c w s rng r post). Qed.
+
+(* non-vacuity: the translated functions run; after set_seed(3) an unseeded draw is the draw Reservoir(seed=3) makes for W; a noisy
+   call advances only the generator it was given; a Generator seed is shared (second draw at position 1) *)
+Example C14_generated_example :
+  let w0 := world_of (init_state 0) VNone VNone in
+  let r := mkReq DNORM 6 6 0 in
+  (exists w1, GenSeed.set_seed w0 (VInt 3) = Ok w1 /\
+     bind (GenSeed.rand_generator w1 VNone) (fun g => draw_on w1 g r 0)
+     = bind (bind (GenSeed.rand_generator w0 (VInt 3)) (fun g => draw_on w0 g r 0)) (fun p => Ok (with_heap w1 (heap_set (w_heap w1) (w_global_rg w1) (Seeded 3, [r])), snd p)))
+  /\ GenSeed.set_seed w0 (VNpInt 3) = Raise TypeError
+  /\ (exists w1 d, GenSeed.noise w0 (GUser 1) 2 (4, 1) 5 0 = Ok (w1, MDraw d) /\ d_post d = 5 /\ w_heap w1 (GGlob 0) = w_heap w0 (GGlob 0)
+        /\ length (snd (w_heap w1 (GUser 1))) = 1)
+  /\ (exists w1 d1 w2 d2, table_draw CW w0 (VGenerator (GUser 2)) (GUser 2) r 0 = Ok (w1, d1) /\
+        table_draw CWin w1 (VGenerator (GUser 2)) (GUser 2) r 0 = Ok (w2, d2) /\ d_trace d1 = [] /\ d_trace d2 = [r]).
+Proof.
+  cbv zeta. split; [eexists; split; reflexivity|]. split; [reflexivity|].
+  split; [eexists; eexists; repeat split|]. eexists. eexists. eexists. eexists. repeat split.
+Qed.
+
+Print Assumptions C14_generated_set_seed.
+Print Assumptions C14_generated_set_seed_rejects.
+Print Assumptions C14_generated_set_seed_fresh_global.
+Print Assumptions C14_generated_rand_generator_draw.
+Print Assumptions C14_generated_rand_generator_construct.
+Print Assumptions C14_generated_rand_generator_int.
+Print Assumptions C14_generated_noise.
+Print Assumptions C14_generated_zero_gain_no_noise.
+Print Assumptions C14_generated_noise_draws_once.
+Print Assumptions C14_generated_dataset_seed.
+Print Assumptions C14_generated_reservoir_seed_table.
+Print Assumptions C14_generated_table_matrix_draw.
+Print Assumptions C14_generated_table_initfb.
+Print Assumptions C14_generated_table_init.
+Print Assumptions C14_generated_table_noise_generator.
+Print Assumptions C14_generated_int_seed_position_zero.
